@@ -84,6 +84,12 @@ class Z3Backend:
     def dedup_key(self, K, X): return self.V.s_dedup_key(K, X)
     def mapc(self, t, cl, X): return self.V.s_mapc(t, cl, X)
     def filterc(self, cl, X): return self.V.s_filterc(cl, X)
+    def snoc(self, X, r): return self.V.rsnoc(X, r)
+    def prefix(self, X, i): return self.V.rprefix(X, i)
+    def nth(self, X, i): return self.V.rnth(X, i)
+    def rput(self, r, t, v): return self.V.row_put(r, t, v)
+    def rmask(self, P, r): return self.V.row_mask(P, r)
+    def capp(self, cl, r): return self.V.capp(cl, r)
     def den_x(self, cl, e): return self.V.denotes_x(cl, e)
     def den_p(self, cl, p): return self.V.denotes_p(cl, p)
     def tlen(self, ts): return self.V.SeqRef.info.len(ts)
@@ -481,6 +487,97 @@ def _(B, t, cl, X):
 @law("callable-filter-len", "L", "cl:Callable X:RS", lambda B, cl, X: B.filterc(cl, X))
 def _(B, cl, X):
     return B.and_(B.le(B.rlen(B.filterc(cl, X)), B.rlen(X)), B.eq(B.rcols(B.filterc(cl, X)), B.rcols(X)))
+
+
+# ---- row-at-a-time laws: every operator on ``X ++ [r]`` and on prefixes.  They are what the loop invariants of the
+# generator bodies in iteration/_row_iterable.py need (content after i rows == operator applied to the first i rows).
+@law("snoc-len-cols", "L", "X:RS r:Row", lambda B, X, r: B.snoc(X, r))
+def _(B, X, r):
+    return B.and_(B.eq(B.rlen(B.snoc(X, r)), B.add(B.rlen(X), B.i(1))), B.eq(B.rcols(B.snoc(X, r)), B.rcols(X)))
+
+
+@law("prefix-zero", "T1", "X:RS", lambda B, X: B.prefix(X, B.i(0)))
+def _(B, X):
+    return B.eq(B.prefix(X, B.i(0)), B.empty(B.rcols(X)))
+
+
+@law("prefix-full", "T1", "X:RS", lambda B, X: B.prefix(X, B.rlen(X)))
+def _(B, X):
+    return B.eq(B.prefix(X, B.rlen(X)), X)
+
+
+@law("prefix-len-cols", "L", "X:RS i:Int", lambda B, X, i: B.prefix(X, i))
+def _(B, X, i):
+    return B.implies(B.and_(B.le(B.i(0), i), B.le(i, B.rlen(X))), B.and_(B.eq(B.rlen(B.prefix(X, i)), i), B.eq(B.rcols(B.prefix(X, i)), B.rcols(X))))
+
+
+# trigger: the prefix of length i together with row i (a pattern on prefix(X, i + 1) would match every integer term)
+@law("prefix-step", "T1", "X:RS i:Int", lambda B, X, i: (B.prefix(X, i), B.nth(X, i)))
+def _(B, X, i):
+    return B.implies(B.and_(B.le(B.i(0), i), B.lt(i, B.rlen(X))), B.eq(B.prefix(X, B.add(i, B.i(1))), B.snoc(B.prefix(X, i), B.nth(X, i))))
+
+
+@law("mapc-snoc", "T1", "t:Tag cl:Callable X:RS r:Row", lambda B, t, cl, X, r: B.mapc(t, cl, B.snoc(X, r)))
+def _(B, t, cl, X, r):
+    return B.eq(B.mapc(t, cl, B.snoc(X, r)), B.snoc(B.mapc(t, cl, X), B.rmask(B.sadd(B.rcols(X), t), B.rput(r, t, B.capp(cl, r)))))
+
+
+@law("mapc-empty", "T1", "t:Tag cl:Callable C:TagSet", lambda B, t, cl, C: B.mapc(t, cl, B.empty(C)))
+def _(B, t, cl, C):
+    return B.eq(B.mapc(t, cl, B.empty(C)), B.empty(B.sadd(C, t)))
+
+
+@law("filterc-snoc", "T1", "cl:Callable X:RS r:Row", lambda B, cl, X, r: B.filterc(cl, B.snoc(X, r)))
+def _(B, cl, X, r):
+    return B.eq(B.filterc(cl, B.snoc(X, r)), B.ite(B.not_(B.eq(B.capp(cl, r), B.i(0))), B.snoc(B.filterc(cl, X), r), B.filterc(cl, X)))
+
+
+@law("filterc-empty", "T1", "cl:Callable C:TagSet", lambda B, cl, C: B.filterc(cl, B.empty(C)))
+def _(B, cl, C):
+    return B.eq(B.filterc(cl, B.empty(C)), B.empty(C))
+
+
+@law("proj-snoc", "T1", "P:TagSet X:RS r:Row", lambda B, P, X, r: B.proj(P, B.snoc(X, r)))
+def _(B, P, X, r):
+    return B.eq(B.proj(P, B.snoc(X, r)), B.snoc(B.proj(P, X), B.rmask(P, r)))
+
+
+@law("proj-empty", "T1", "P:TagSet C:TagSet", lambda B, P, C: B.proj(P, B.empty(C)))
+def _(B, P, C):
+    return B.eq(B.proj(P, B.empty(C)), B.empty(P))
+
+
+@law("slice-empty", "T1", "a:Int b:OptInt C:TagSet", lambda B, a, b, C: B.slice(a, b, B.empty(C)))
+def _(B, a, b, C):
+    return B.eq(B.slice(a, b, B.empty(C)), B.empty(C))
+
+
+@law("slice-snoc", "T1", "a:Int b:OptInt X:RS r:Row", lambda B, a, b, X, r: B.slice(a, b, B.snoc(X, r)))
+def _(B, a, b, X, r):
+    inside = B.and_(B.le(a, B.rlen(X)), B.or_(B.is_none(b), B.lt(B.rlen(X), B.val(b))))
+    return B.implies(B.and_(B.le(B.i(0), a), B.or_(B.is_none(b), B.le(B.i(0), B.val(b)))),
+                     B.eq(B.slice(a, b, B.snoc(X, r)), B.ite(inside, B.snoc(B.slice(a, b, X), r), B.slice(a, b, X))))
+
+
+@law("slice-prefix", "T1", "a:Int b:OptInt X:RS", lambda B, a, b, X: B.slice(a, b, B.prefix(X, B.val(b))))
+def _(B, a, b, X):
+    return B.implies(B.and_(B.le(B.i(0), a), B.not_(B.is_none(b)), B.le(B.i(0), B.val(b)), B.le(B.val(b), B.rlen(X))),
+                     B.eq(B.slice(a, b, B.prefix(X, B.val(b))), B.slice(a, b, X)))
+
+
+@law("dedup-key-idem", "T2", "K:TagSet X:RS", lambda B, K, X: B.dedup_key(K, B.dedup_key(K, X)))
+def _(B, K, X):
+    return B.eq(B.dedup_key(K, B.dedup_key(K, X)), B.dedup_key(K, X))
+
+
+@law("dedup-key-empty", "T1", "K:TagSet C:TagSet", lambda B, K, C: B.dedup_key(K, B.empty(C)))
+def _(B, K, C):
+    return B.eq(B.dedup_key(K, B.empty(C)), B.empty(C))
+
+
+@law("dedup-key-unit", "T1", "K:TagSet", lambda B, K: B.dedup_key(K, B.unit()))
+def _(B, K):
+    return B.eq(B.dedup_key(K, B.unit()), B.unit())
 
 
 # ---- integer arithmetic (range literals)
